@@ -79,7 +79,17 @@ def run(ctx):
             fact_holds(facts, lambda a: 'ret' in dstr(a) and '== 0' in dstr(a), True)
         ctx.check('C18.W1', ok, rm.name, 'Remove:report-unconditional', rm.where(e),
                   'a file is reported only if it exists (dry run) or was removed (ret == 0)')
-    ctx.floor('C18.W1', 5)
+    # ... and "all of it": a path given to Remove is acted on (removed, or listed in a dry run) unless this very path
+    # was handled before - an earlier error, a counter, a flag are not reasons to leave the rest of the files behind
+    acts = [e for e in rm.events('call') if e.get('name') in ('Cleaner::RemoveFile', 'Cleaner::FileExists')]
+    def handled_before(b, i, s2):
+        return not any(pol is True and (mentions_call(a, 'Cleaner::IsAlreadyRemoved') or mentions_field(a, 'Cleaner::removed_'))
+                       for k, pol, a in rm.edge_facts(b, i))
+    r = rm.find_path(None, lambda x: x['k'] in ('ret', 'exit'), from_succ=rm.entry, is_blocker=lambda x: x in acts, edge_ok=handled_before)
+    ctx.check('C18.W1', bool(acts) and r is None, rm.name, 'Remove:skipped-for-another-reason', rm.loc,
+              'Cleaner::Remove acts on every path that was not removed already',
+              witness=None if r is None else {'blocks': r[0]})
+    ctx.floor('C18.W1', 6)
 
     # ---- V1: provenance of every removed path --------------------------------------------------
     R('C18.V1', 'V', 'every path given to Cleaner::Remove is the path of an element of some '
@@ -257,6 +267,14 @@ def run(ctx):
                      'the target is marked visited before the descent', 'DoCleanTarget:mark-after-descent')
         guarded(ctx, 'C18.O1', dt, e, lambda a: mentions_field(a, 'Cleaner::cleaned_'), None,
                 'descent only into inputs not yet visited', construct='DoCleanTarget:descent-unguarded')
+    # ... and into every one of them: the visited set is the only reason to leave an input out (what a phony alias or a
+    # source file leads to is decided one level down, by the statement that produces it - or by there being none)
+    for l in loops_over(dt, 'Edge::inputs_'):
+        in_cleaned = lambda a: mentions_field(a, 'Cleaner::cleaned_')
+        skip_conditions_exact(ctx, 'C18.O1', dt, l, lambda x: x['k'] == 'call' and x.get('name') == 'Cleaner::DoCleanTarget',
+                              [(in_cleaned, True), (in_cleaned, False)],
+                              'clean by target leaves an input out of the descent only because it was visited already',
+                              'DoCleanTarget:input-skipped')
     # "nothing to remove" is what remove() itself reported (ENOENT), not the answer of a query that follows symlinks
     rmf = prog.fn('RealDiskInterface::RemoveFile')
     for e in rmf.events('ret'):
@@ -266,4 +284,4 @@ def run(ctx):
     probes = [e for e in rmf.events('call') if e.get('name') in ('access', 'stat', 'stat64', 'fopen', 'open', 'faccessat')]
     ctx.check('C18.O1', not probes, rmf.name, 'RemoveFile:symlink-following-probe', rmf.loc,
               'RemoveFile does not probe the path with a call that follows symlinks (%s)' % [e['name'] for e in probes])
-    ctx.floor('C18.O1', 17)
+    ctx.floor('C18.O1', 18)
